@@ -340,3 +340,289 @@ Theorem C17_ut_ptr_set_spec :
   (forall b : nat, b <> bp -> b <> bi -> b <> bs -> hblock h'' b = hblock h b).
 Proof. exact ut_ptr_set_spec. Qed.
 Print Assumptions C17_ut_ptr_set_spec.
+
+(* --------------------------------------------------------------------------------------------------------------
+   THE TRANSLATED SOURCE of the plugin chain (gen/Gen_HeapC17P.v, regenerated by tools/cxx2heap.py on every run: TestPlugin::addPlugin / runAllPreTestAction / runAllPostTestAction / getPluginByName / removePluginByName / enable / disable, TestRegistry::installPlugin / removePluginByName / getPluginByName / countPlugins / resetPlugins) computes the link-level model of C17_Model.v, so the C17 theorems over the links hold of the translated source
+   -------------------------------------------------------------------------------------------------------------- *)
+From CppUVerif Require Import lib.CSem lib.CMem lib.CHeap gen.Gen_HeapC17P C17_ChainTie.
+Local Open Scope Z_scope.
+Theorem C17_C17P_pre :
+  forall (h : heap) (p : hptr) (nb : nat) (ps : list prec) (evs : list pcev) (fuel : nat),
+  chain_at h p nb ps ->
+  length ps <= fuel -> run_pre fuel h evs (HPtr nb Z0) p = FOk (tt, h, evs ++ pre_evs ps, HPtr nb Z0).
+Proof. exact C17P_pre. Qed.
+Print Assumptions C17_C17P_pre.
+
+Theorem C17_C17P_post :
+  forall (h : heap) (p : hptr) (nb : nat) (ps : list prec) (evs : list pcev) (fuel : nat),
+  chain_at h p nb ps ->
+  length ps <= fuel -> run_post fuel h evs (HPtr nb Z0) p = FOk (tt, h, evs ++ post_evs ps, HPtr nb Z0).
+Proof. exact C17P_post. Qed.
+Print Assumptions C17_C17P_post.
+
+Theorem C17_post_is_reverse_of_pre :
+  forall ps : list prec, map ev_ptr (post_evs ps) = rev (map ev_ptr (pre_evs ps)).
+Proof. exact post_is_reverse_of_pre. Qed.
+Print Assumptions C17_post_is_reverse_of_pre.
+
+Theorem C17_pre_each_once :
+  forall (h : heap) (p : hptr) (nb : nat) (ps : list prec),
+  chain_at h p nb ps ->
+  (forall x : prec, In x ps -> pe x = true -> count_occ hptr_dec (map ev_ptr (pre_evs ps)) (pptr x) = 1) /\
+  (forall q : hptr,
+  (forall x : prec, In x ps -> pe x = true -> pptr x <> q) ->
+  count_occ hptr_dec (map ev_ptr (pre_evs ps)) q = 0).
+Proof. exact pre_each_once. Qed.
+Print Assumptions C17_pre_each_once.
+
+Theorem C17_C17P_install :
+  forall (h : heap) (rb nb : nat) (ps : list prec) (x : prec) (stale : hptr) (evs : list pcev) (fuel : nat),
+  registry_at h rb nb ps ->
+  hblock h (pb x) = pcells x stale ->
+  ~ In (pb x) (map pb ps) ->
+  pb x <> nb ->
+  pb x <> rb ->
+  exists h' : heap,
+  src_registry_installPlugin fuel h evs (HPtr nb Z0) (HPtr rb Z0) (pptr x) = FOk (tt, h', evs, HPtr nb Z0) /\
+  registry_at h' rb nb (x :: ps) /\
+  length h' = length h /\
+  (forall b : nat, b <> rb -> b <> pb x -> hblock h' b = hblock h b) /\
+  (forall k : nat, k <> 3 -> nth_error (hblock h' rb) k = nth_error (hblock h rb) k).
+Proof. exact C17P_install. Qed.
+Print Assumptions C17_C17P_install.
+
+Theorem C17_C17P_remove :
+  forall (rb nb : nat) (name : Z) (evs : list pcev) (fuel0 : nat),
+  rb <> nb ->
+  forall (h : heap) (ps : list prec),
+  registry_at h rb nb ps ->
+  length ps < fuel0 ->
+  exists h' : heap,
+  src_registry_removePluginByName fuel0 h evs (HPtr nb Z0) (HPtr rb Z0) name = FOk (tt, h', evs, HPtr nb Z0) /\
+  registry_at h' rb nb (keep name ps) /\
+  length h' = length h /\
+  (forall b : nat, b <> rb -> ~ In b (map pb (keep name ps)) -> hblock h' b = hblock h b) /\
+  (forall k : nat, k <> 3 -> nth_error (hblock h' rb) k = nth_error (hblock h rb) k).
+Proof. exact C17P_remove. Qed.
+Print Assumptions C17_C17P_remove.
+
+Theorem C17_C17P_removed_keep_cells :
+  forall (rb nb : nat) (name : Z) (evs : list pcev) (h : heap) (ps : list prec) (fuel : nat) (h' : heap),
+  rb <> nb ->
+  registry_at h rb nb ps ->
+  src_registry_removePluginByName fuel h evs (HPtr nb Z0) (HPtr rb Z0) name = FOk (tt, h', evs, HPtr nb Z0) ->
+  length ps < fuel -> forall x : prec, In x ps -> pn x = name -> hblock h' (pb x) = hblock h (pb x).
+Proof. exact C17P_removed_keep_cells. Qed.
+Print Assumptions C17_C17P_removed_keep_cells.
+
+Theorem C17_C17P_reinstall_removed :
+  forall (rb nb : nat) (name : Z) (evs : list pcev) (h : heap) (ps : list prec) (fuel : nat) (x : prec),
+  rb <> nb ->
+  registry_at h rb nb ps ->
+  length ps < fuel ->
+  In x ps ->
+  pn x = name ->
+  exists h1 h2 : heap,
+  src_registry_removePluginByName fuel h evs (HPtr nb Z0) (HPtr rb Z0) name = FOk (tt, h1, evs, HPtr nb Z0) /\
+  src_registry_installPlugin fuel h1 evs (HPtr nb Z0) (HPtr rb Z0) (pptr x) = FOk (tt, h2, evs, HPtr nb Z0) /\
+  registry_at h2 rb nb (x :: keep name ps).
+Proof. exact C17P_reinstall_removed. Qed.
+Print Assumptions C17_C17P_reinstall_removed.
+
+Theorem C17_C17P_getByName_found :
+  forall (h : heap) (rb nb : nat) (ps : list prec) (a name : Z) (evs : list pcev) (fuel : nat),
+  registry_at h rb nb ps ->
+  term_at h nb a ->
+  a <> name ->
+  length ps < fuel ->
+  src_registry_getPluginByName fuel h evs (HPtr nb Z0) (HPtr rb Z0) name =
+  FOk (match first_named name ps with
+  | Some x => pptr x
+  | None => HNull
+  end, h, evs, HPtr nb Z0).
+Proof. exact C17P_getByName_found. Qed.
+Print Assumptions C17_C17P_getByName_found.
+
+Theorem C17_C17P_count :
+  forall (h : heap) (rb nb : nat) (ps : list prec) (evs : list pcev) (fuel : nat),
+  registry_at h rb nb ps ->
+  length ps < fuel ->
+  BinInt.Z.lt (BinInt.Z.of_nat (length ps)) (BinInt.Z.pow (Zpos 2) (Zpos 31)) ->
+  src_registry_countPlugins fuel h evs (HPtr nb Z0) (HPtr rb Z0) =
+  FOk (BinInt.Z.of_nat (length ps), h, evs, HPtr nb Z0).
+Proof. exact C17P_count. Qed.
+Print Assumptions C17_C17P_count.
+
+Theorem C17_C17P_reset :
+  forall (h : heap) (rb nb : nat) (ps : list prec) (evs : list pcev) (fuel : nat),
+  registry_at h rb nb ps ->
+  src_registry_resetPlugins fuel h evs (HPtr nb Z0) (HPtr rb Z0) =
+  FOk (tt, set_first h rb (HPtr nb Z0), evs, HPtr nb Z0) /\
+  registry_at (set_first h rb (HPtr nb Z0)) rb nb [] /\
+  length (set_first h rb (HPtr nb Z0)) = length h /\
+  (forall b : nat, b <> rb -> hblock (set_first h rb (HPtr nb Z0)) b = hblock h b) /\
+  (forall k : nat, k <> 3 -> nth_error (hblock (set_first h rb (HPtr nb Z0)) rb) k = nth_error (hblock h rb) k).
+Proof. exact C17P_reset. Qed.
+Print Assumptions C17_C17P_reset.
+
+Theorem C17_C17P_l_install :
+  forall (rb nb : nat) (bk : nat -> nat) (h : heap) (D : nat -> Prop) (on : nat -> bool)
+  (L : links) (i : nat) (evs : list pcev) (fuel : nat),
+  links_at rb nb bk h D on L ->
+  D i ->
+  exists h' : heap,
+  src_registry_installPlugin fuel h evs (HPtr nb Z0) (HPtr rb Z0) (HPtr (bk i) Z0) =
+  FOk (tt, h', evs, HPtr nb Z0) /\
+  links_at rb nb bk h' D on (l_install i L) /\
+  length h' = length h /\
+  (forall b : nat, b <> rb -> b <> bk i -> hblock h' b = hblock h b) /\
+  (forall k : nat, k <> 3 -> nth_error (hblock h' rb) k = nth_error (hblock h rb) k).
+Proof. exact C17P_l_install. Qed.
+Print Assumptions C17_C17P_l_install.
+
+Theorem C17_C17P_l_remove :
+  forall (rb nb : nat) (bk : nat -> nat) (D : nat -> Prop) (on : nat -> bool) (n : N)
+  (evs : list pcev) (fuel0 : nat),
+  geo rb nb bk D ->
+  forall (h : heap) (L L' : links) (fuel : nat),
+  links_at rb nb bk h D on L ->
+  l_remove fuel n L = Some L' ->
+  fuel < fuel0 ->
+  exists h' : heap,
+  src_registry_removePluginByName fuel0 h evs (HPtr nb Z0) (HPtr rb Z0) (BinInt.Z.of_N n) =
+  FOk (tt, h', evs, HPtr nb Z0) /\
+  links_at rb nb bk h' D on L' /\
+  length h' = length h /\
+  (forall b : nat, (forall i : nat, D i -> b <> bk i) -> b <> rb -> hblock h' b = hblock h b) /\
+  (forall k : nat, k <> 3 -> nth_error (hblock h' rb) k = nth_error (hblock h rb) k) /\
+  (forall i : nat, D i -> nxt (l_objs L') i = nxt (l_objs L) i -> hblock h' (bk i) = hblock h (bk i)).
+Proof. exact C17P_l_remove. Qed.
+Print Assumptions C17_C17P_l_remove.
+
+Theorem C17_C17P_l_reset :
+  forall (rb nb : nat) (bk : nat -> nat) (h : heap) (D : nat -> Prop) (on : nat -> bool)
+  (L : links) (evs : list pcev) (fuel : nat),
+  links_at rb nb bk h D on L ->
+  src_registry_resetPlugins fuel h evs (HPtr nb Z0) (HPtr rb Z0) =
+  FOk (tt, set_first h rb (HPtr nb Z0), evs, HPtr nb Z0) /\
+  links_at rb nb bk (set_first h rb (HPtr nb Z0)) D on (l_reset L) /\
+  (forall b : nat, b <> rb -> hblock (set_first h rb (HPtr nb Z0)) b = hblock h b).
+Proof. exact C17P_l_reset. Qed.
+Print Assumptions C17_C17P_l_reset.
+
+Theorem C17_C17P_l_read :
+  forall (rb nb : nat) (bk : nat -> nat) (h : heap) (D : nat -> Prop) (on : nat -> bool) (os : list obj),
+  geo rb nb bk D ->
+  objs_at nb bk h D on os ->
+  forall (fuel : nat) (f : C17_Model.ptr),
+  closed D f ->
+  h_read fuel h (HPtr nb Z0) (optr nb bk f) =
+  match l_read fuel os f with
+  | Some ids => Some (optrs bk ids)
+  | None => None
+  end.
+Proof. exact C17P_l_read. Qed.
+Print Assumptions C17_C17P_l_read.
+
+Theorem C17_C17P_l_pre :
+  forall (rb nb : nat) (bk : nat -> nat) (h : heap) (D : nat -> Prop) (on : nat -> bool) (os : list obj),
+  geo rb nb bk D ->
+  objs_at nb bk h D on os ->
+  forall (fuel : nat) (f : C17_Model.ptr) (r : list nat) (evs : list pcev),
+  closed D f ->
+  l_pre fuel os on f = Some r ->
+  run_pre fuel h evs (HPtr nb Z0) (optr nb bk f) =
+  FOk (tt, h, evs ++ map (fun i : nat => PPre (HPtr (bk i) Z0)) r, HPtr nb Z0).
+Proof. exact C17P_l_pre. Qed.
+Print Assumptions C17_C17P_l_pre.
+
+Theorem C17_C17P_l_post :
+  forall (rb nb : nat) (bk : nat -> nat) (h : heap) (D : nat -> Prop) (on : nat -> bool) (os : list obj),
+  geo rb nb bk D ->
+  objs_at nb bk h D on os ->
+  forall (fuel : nat) (f : C17_Model.ptr) (r : list nat) (evs : list pcev),
+  closed D f ->
+  l_post fuel os on f = Some r ->
+  run_post fuel h evs (HPtr nb Z0) (optr nb bk f) =
+  FOk (tt, h, evs ++ map (fun i : nat => PPost (HPtr (bk i) Z0)) r, HPtr nb Z0).
+Proof. exact C17P_l_post. Qed.
+Print Assumptions C17_C17P_l_post.
+
+Theorem C17_C17P_install_overwrites_link :
+  forall (rb nb : nat) (bk : nat -> nat) (h : heap) (D : nat -> Prop) (on : nat -> bool)
+  (L : links) (ids : list nat) (i : nat) (evs : list pcev) (fuel : nat),
+  links_at rb nb bk h D on L ->
+  path (l_objs L) (l_first L) ids ->
+  D i ->
+  ~ In i ids ->
+  exists h' : heap,
+  src_registry_installPlugin fuel h evs (HPtr nb Z0) (HPtr rb Z0) (HPtr (bk i) Z0) =
+  FOk (tt, h', evs, HPtr nb Z0) /\
+  links_at rb nb bk h' D on (l_install i L) /\
+  h_read (S (S (length ids))) h' (HPtr nb Z0) (HPtr (bk i) Z0) = Some (optrs bk (i :: ids)).
+Proof. exact C17P_install_overwrites_link. Qed.
+Print Assumptions C17_C17P_install_overwrites_link.
+
+Theorem C17_C17P_remove_over_links :
+  forall (rb nb : nat) (bk : nat -> nat) (h : heap) (D : nat -> Prop) (on : nat -> bool)
+  (L : links) (n : N) (c : list plugin) (evs : list pcev) (fuel : nat),
+  links_at rb nb bk h D on L ->
+  path (l_objs L) (l_first L) (map p_id c) ->
+  NoDup (map p_id c) ->
+  (forall p : plugin, In p c -> oname (l_objs L) (p_id p) = p_name p) ->
+  S (length c) < fuel ->
+  exists (h' : heap) (L' : links),
+  src_registry_removePluginByName fuel h evs (HPtr nb Z0) (HPtr rb Z0) (BinInt.Z.of_N n) =
+  FOk (tt, h', evs, HPtr nb Z0) /\
+  l_remove (S (length c)) n L = Some L' /\
+  links_at rb nb bk h' D on L' /\
+  h_read fuel h' (HPtr nb Z0) (optr nb bk (l_first L')) = Some (optrs bk (map p_id (without n c))) /\
+  (forall j : nat, D j -> ~ In j (map p_id (without n c)) -> hblock h' (bk j) = hblock h (bk j)).
+Proof. exact C17P_remove_over_links. Qed.
+Print Assumptions C17_C17P_remove_over_links.
+
+Theorem C17_reg_rep_act :
+  forall (rb nb : nat) (bk : nat -> nat) (h : heap) (r : reg) (a : act) (evs : list pcev) (fuel : nat),
+  reg_rep rb nb bk h r ->
+  act_ok r a = true ->
+  act_pre rb nb bk h r a ->
+  remove_fuel r < fuel ->
+  exists h' : heap,
+  src_act rb nb bk fuel h evs r a = FOk (tt, h', evs, HPtr nb Z0) /\ reg_rep rb nb bk h' (reg_act without r a).
+Proof. exact reg_rep_act. Qed.
+Print Assumptions C17_reg_rep_act.
+
+Theorem C17_reg_rep_pre :
+  forall (rb nb : nat) (bk : nat -> nat) (h : heap) (r : reg) (st : state) (evs : list pcev) (fuel : nat),
+  reg_rep rb nb bk h r ->
+  s_reg st = r ->
+  passive (r_chain r) ->
+  remove_fuel r <= fuel ->
+  run_pre fuel h evs (HPtr nb Z0) (optr nb bk (l_first (r_lnk r))) =
+  FOk
+  (tt, h, evs ++ map (fun i : nat => PPre (HPtr (bk i) Z0)) (snd (walk false (r_chain r) st [])), HPtr nb Z0).
+Proof. exact reg_rep_pre. Qed.
+Print Assumptions C17_reg_rep_pre.
+
+Theorem C17_reg_rep_post :
+  forall (rb nb : nat) (bk : nat -> nat) (h : heap) (r : reg) (st : state) (evs : list pcev) (fuel : nat),
+  reg_rep rb nb bk h r ->
+  s_reg st = r ->
+  passive (r_chain r) ->
+  remove_fuel r <= fuel ->
+  run_post fuel h evs (HPtr nb Z0) (optr nb bk (l_first (r_lnk r))) =
+  FOk
+  (tt, h, evs ++ map (fun i : nat => PPost (HPtr (bk i) Z0)) (snd (walk true (rev (r_chain r)) st [])),
+  HPtr nb Z0).
+Proof. exact reg_rep_post. Qed.
+Print Assumptions C17_reg_rep_post.
+
+Theorem C17_get_null_for_absent_refuted :
+  ~ get_null_for_absent_stmt.
+Proof. exact get_null_for_absent_refuted. Qed.
+Print Assumptions C17_get_null_for_absent_refuted.
+
+Theorem C17_install_any_block_refuted :
+  ~ install_any_block_stmt.
+Proof. exact install_any_block_refuted. Qed.
+Print Assumptions C17_install_any_block_refuted.
